@@ -93,6 +93,20 @@ func runFormulasImpl(c *core.Ctx) {
 	p.Lon0 = lon0 * d2r
 	p.X0, p.Y0 = r.Range(-3e6, 3e6), r.Range(-3e6, 3e6)
 	fo := " +x_0=" + F(p.X0) + " +y_0=" + F(p.Y0)
+	// parameters at their PROJ.4 default of zero, written or simply left out
+	omitLat0 := false
+	if r.Chance(0.12) {
+		switch r.Intn(3) {
+		case 0:
+			p.X0, p.Y0, fo = 0, 0, ""
+		case 1:
+			p.X0, fo = 0, " +y_0="+F(p.Y0)
+		default:
+			p.Y0, fo = 0, " +x_0="+F(p.X0)
+		}
+		omitLat0 = r.Bool()
+		c.Count("formulas.default_valued_clauses_omitted")
+	}
 	var def string
 	dlon, latMin, latMax := 170.0, -85.0, 85.0
 	var fwd func(refproj.Ell, refproj.Params, float64, float64) (float64, float64)
@@ -120,7 +134,11 @@ func runFormulasImpl(c *core.Ctx) {
 			l2, name = l1, "lcc"
 		}
 		p.Lat1, p.Lat2, p.Lat0 = sgn*l1*d2r, sgn*l2*d2r, sgn*l0*d2r
-		def = "+proj=" + name + " +lat_1=" + F(sgn*l1) + " +lat_2=" + F(sgn*l2) + " +lat_0=" + F(sgn*l0) + " +lon_0=" + F(lon0)
+		lat0Clause := " +lat_0=" + F(sgn*l0)
+		if omitLat0 {
+			p.Lat0, lat0Clause = 0, ""
+		}
+		def = "+proj=" + name + " +lat_1=" + F(sgn*l1) + " +lat_2=" + F(sgn*l2) + lat0Clause + " +lon_0=" + F(lon0)
 		if name == "lcc" && r.Bool() {
 			p.K0 = r.Range(0.9, 1.1)
 			def += " +k_0=" + F(p.K0)
@@ -148,7 +166,11 @@ func runFormulasImpl(c *core.Ctx) {
 	case "tmerc":
 		l0 := r.Range(-80, 80)
 		p.Lat0, p.K0 = l0*d2r, r.Range(0.9, 1.1)
-		def = "+proj=tmerc +lat_0=" + F(l0) + " +lon_0=" + F(lon0) + " +k_0=" + F(p.K0) + fo
+		lat0Clause := " +lat_0=" + F(l0)
+		if omitLat0 {
+			p.Lat0, lat0Clause = 0, ""
+		}
+		def = "+proj=tmerc" + lat0Clause + " +lon_0=" + F(lon0) + " +k_0=" + F(p.K0) + fo
 		dlon, latMin, latMax = 3.5, -84, 84
 		fwd = refproj.TransverseMercator
 	case "utm":
